@@ -204,13 +204,15 @@ PROPS = {
                  "must-not / either, never twice); watchdog on every Publish. Core-first: with a connected peer, the core handler's datagrams are on "
                  "the writer before an application handler starts handling the device-add event and when the injecting call returns; the same with "
                  "2-3 local devices in the process (several core handlers that subscribe with their first and unsubscribe with their last connection). Non-trivial: a "
-                 "must-deliver pair exists and an (un)subscription lies between two publications or re-entrancy was executed. Distinct by plan hash."),
+                 "must-deliver pair exists and an (un)subscription lies between two publications or re-entrancy was executed. Distinct by plan hash."
+                 " Levels: sequential histories of subscribe / unsubscribe (level, handler) - through the public API and through the build-tag hook for the core level - and publications with 1-3 harness handlers; per publication the deliveries (handler, level seen from the goroutine) must equal the subscriptions in force; non-trivial: one handler on both levels and a publication after an unsubscription."),
         "assumptions": ["a Publish that does not return within 10 s with goroutines parked in spine-go locks is a deadlock; a bare time-out is inconclusive"],
         "runs": [
             {"name": "bus", "run": "TestBusHistories", "kind": "rapid", "checks": {Q: 8000, T: 1000000}, "shards": {Q: 4, T: 16}},
             {"name": "corefirst", "run": "TestCoreFirst", "kind": "rapid", "checks": {Q: 4000, T: 600000}, "shards": {Q: 4, T: 16}},
             {"name": "multicore", "run": "TestSeveralCoreHandlers", "kind": "rapid", "checks": {Q: 3000, T: 400000}, "shards": {Q: 4, T: 16}},
             {"name": "independent", "run": "TestHandlersRunIndependently", "kind": "rapid", "checks": {Q: 2000, T: 200000}, "shards": {Q: 2, T: 16}},
+            {"name": "levels", "run": "TestHandlerLevels", "kind": "rapid", "checks": {Q: 4000, T: 400000}, "shards": {Q: 2, T: 16}},
             {"name": "oracle", "run": "TestOracle", "kind": "plain"},
             {"name": "coreconcurrent", "run": "TestCoreFirstConcurrent", "kind": "plain", "shards": {Q: 2, T: 8}, "env": {"VERIF_ROUNDS": {Q: 300, T: 3000}}},
         ],
